@@ -254,11 +254,12 @@ class SigmaBase64OffsetModifier(SigmaValueModifier[SigmaString, SigmaExpansion])
                 "Base64 encoding of strings with wildcards is not allowed",
                 source=self.source,
             )
+        payload = bytes(val)  # offsets depend on the number of bytes, not of characters
         return SigmaExpansion(
             [
                 SigmaString(
-                    b64encode(i * b" " + bytes(val))[
-                        self.start_offsets[i] : self.end_offsets[(len(val) + i) % 3]
+                    b64encode(i * b" " + payload)[
+                        self.start_offsets[i] : self.end_offsets[(len(payload) + i) % 3]
                     ].decode()
                 )
                 for i in range(3)
